@@ -16,6 +16,7 @@
  *                    finalises it, its destructor ALLOCATES a new managed object and publishes it (see Q)
  *   Q<fid>=<lid><K>,<place>  what the finaliser of F-node fid does: new node lid of kind K (S or W),
  *                    published into place = K (a stack slot) | T<s> (TLS entry k<s>) | P<h>.<i> (field i of node h)
+ *                    I D G = managed leaf objects new(Int) new(Float) new(String) (no pointer fields)
  *                    V = user type with its own Mark instance (two pointer fields handed to the callback;
  *                    destructor ledger as S)
  *   L<first>,<n>,<K>,<tail>  a singly linked chain of n nodes first..first+n-1 of kind K (R Ref, B Box, S struct,
@@ -181,6 +182,10 @@ static void __attribute__((noinline)) op_new(long id, char k, int root) {
   switch (k) {
     case 'S': p = root ? alloc_root(Probe) : alloc(Probe); break;
     case 'V': p = root ? alloc_root(MarkProbe) : alloc(MarkProbe); break;
+    /* managed LEAF objects (no pointers inside): GC_Recurse returns at once on them, but they must be marked */
+    case 'I': p = root ? (var)new_root(Int, $I(id)) : (var)new(Int, $I(id)); break;
+    case 'D': p = root ? (var)new_root(Float, $F(1.5)) : (var)new(Float, $F(1.5)); break;
+    case 'G': p = root ? (var)new_root(String, $S("leaf object")) : (var)new(String, $S("leaf object")); break;
     case 's': p = alloc_raw(Probe); break;
     case 'W': p = root ? alloc_root(BigProbe) : alloc(BigProbe); break;
     case 'F': p = root ? alloc_root(FinProbe) : alloc(FinProbe); break;
